@@ -201,7 +201,9 @@ pub fn gen_method_desc(r: &mut Rng, classes: &[String]) -> (String, usize) {
 }
 
 pub fn gen_comment(r: &mut Rng, cfg: &GenCfg) -> String {
-    const WORDS: [&str; 12] = ["the", "value", "of", "this", "#hash", "is", "@see", "{@link Foo#bar}", "<p>", "  indented", "x=y", "naïve"];
+    // backslashes: Tiny v2 escapes only the line break (as backslash-n); every other backslash is literal text
+    // (the two characters backslash-n themselves are excluded, DESIGN appendix C)
+    const WORDS: [&str; 18] = ["the", "value", "of", "this", "#hash", "is", "@see", "{@link Foo#bar}", "<p>", "  indented", "x=y", "naïve", "C:\\temp\\readme.txt", "\\\\server\\share", "/\\", "a\\0b", "tab\\there", "ends\\"];
     let lines = if r.chance(40) { r.range(2, 4) } else { 1 };
     let mut out = vec![];
     for li in 0..lines {
